@@ -46,6 +46,9 @@ def discover_accessors(prog):
             series.append(f)
         if tab_join:
             renderers.append(f)
+    # a private helper that builds part of the text and is read in place inside another renderer is part of that renderer
+    inl_ = {k_ for f_ in renderers for k_ in getattr(f_, 'inlined', ())}
+    renderers = [f_ for f_ in renderers if not (f_.name.startswith('_') and not f_.name.startswith('__') and f_.key in inl_)] or renderers
     rnames = {f.name for f in renderers}
     for f in prog.all_functions():
         if f in renderers or f in series:
